@@ -33,11 +33,11 @@ pub mod verif_video {
     v.current_mode = mode;
     v.current_mode_dots = dots;
     v.current_line = line;
-    v.ly_compare = kani::any();
-    v.interrupt_on_lyc = kani::any();
-    v.interrupt_on_mode_0 = kani::any();
-    v.interrupt_on_mode_1 = kani::any();
-    v.interrupt_on_mode_2 = kani::any();
+    // STAT enables and LYC go through the public register writes (robust to how the controller stores them)
+    let stat: u8 = kani::any();
+    let lyc: u8 = kani::any();
+    let _ = v.set_lcd_status(stat);
+    let _ = v.set_ly_compare(lyc);
     v.scroll_x = kani::any();
     v.scroll_y = kani::any();
     v.window_x = kani::any();
@@ -89,7 +89,8 @@ mod verif_c14 {
     let (mut v, p) = any_state();
     let vram: Box<[u8]> = vec![0u8; 0x2000].into_boxed_slice();
     let oam: Box<[u8]> = vec![0u8; 0xa0].into_boxed_slice();
-    let (lyc, e_lyc, e0, e1, e2) = (v.ly_compare, v.interrupt_on_lyc, v.interrupt_on_mode_0, v.interrupt_on_mode_1, v.interrupt_on_mode_2);
+    let stat0 = v.get_lcd_status();
+    let (lyc, e_lyc, e0, e1, e2) = (v.get_ly_compare(), stat0 & 0x40 != 0, stat0 & 0x08 != 0, stat0 & 0x10 != 0, stat0 & 0x20 != 0);
     let f = v.run_clock_cycles(ClockCycles(4), &vram, &oam).as_u8();
     let p1 = (p + 4) % 70224;
     let (m1, d1, l1) = at(p1);
@@ -122,7 +123,8 @@ mod verif_c14 {
     }
     let vram: Box<[u8]> = vec![0u8; 0x2000].into_boxed_slice();
     let oam: Box<[u8]> = vec![0u8; 0xa0].into_boxed_slice();
-    let (lyc, e_lyc, e0, e1, e2) = (a.ly_compare, a.interrupt_on_lyc, a.interrupt_on_mode_0, a.interrupt_on_mode_1, a.interrupt_on_mode_2);
+    let stat0 = a.get_lcd_status();
+    let (lyc, e_lyc, e0, e1, e2) = (a.get_ly_compare(), stat0 & 0x40 != 0, stat0 & 0x08 != 0, stat0 & 0x10 != 0, stat0 & 0x20 != 0);
     let ksym: usize = kani::any();
     kani::assume(ksym >= 1 && ksym <= kmax);
     let k = if fixed { kmax } else { ksym }; // a fixed batch length must be a constant for the symbolic executor
@@ -194,7 +196,7 @@ mod verif_c14 {
     if kani::any() {
       let f = v.set_ly_compare(val).as_u8();
       vassert!(v.get_ly_compare() == val, "C14.lyc.readback");
-      vassert!((f & 2 != 0) == (v.interrupt_on_lyc && val == v.get_ly()) && f & !2 == 0, "C14.lyc.write_request");
+      vassert!((f & 2 != 0) == (v.get_lcd_status() & 0x40 != 0 && val == v.get_ly()) && f & !2 == 0, "C14.lyc.write_request");
     } else {
       let f = v.set_lcd_status(val).as_u8();
       vassert!(v.get_lcd_status() & 0x78 == val & 0x78, "C14.stat.enable_readback");
